@@ -103,6 +103,9 @@ class State:
         self.last = ""
 
     def call(self, a):
+        if a[0].startswith('post-') and not self.last.startswith('ok'):
+            # an effect oracle judges a call that was carried out (a refused call is judged by the status rule)
+            raise RuntimeError('the call before %s was not carried out: %s' % (a[0], self.last))
         return getattr(self, 'o_' + a[0].replace('-', '_'))(*a[1:])
 
     def C(self, h):
@@ -500,6 +503,17 @@ class State:
                 if all(f is not None for f in fac) and len(set(fac)) >= 2:
                     if B.simplexWithFaces(c, fac) is not None:
                         return 'FAIL simplexWithFaces(%r) found a simplex that is not there' % (fac,)
+        # any k+1 simplices of order k-1 (whether or not they close up): the simplex having exactly these faces, or None
+        if len(nm) <= 16:
+            byfaces = {frozenset(B.faces(c, s)): s for s in nm if B.orderOf(c, s) > 0}
+            for k in range(1, B.maxOrder(c) + 2):
+                low = B.simplicesOfOrder(c, k - 1)
+                if len(low) > 7:
+                    continue
+                for tup in itertools.combinations(low, k + 1):
+                    got = B.simplexWithFaces(c, list(tup))
+                    if got != byfaces.get(frozenset(tup)):
+                        return 'FAIL simplexWithFaces(%r) = %r, the simplex with exactly these faces is %r' % (list(tup), got, byfaces.get(frozenset(tup)))
         names = list(nm)
         cl = {s: set(B.closureOf(c, s)) for s in names}
         for r in (2, 3):
@@ -530,6 +544,11 @@ class State:
             some = B.bettiNumbers(c, [mo, 0])
             if some[mo] != want[mo] or some[0] != want[0]:
                 return 'FAIL bettiNumbers([max, 0]) = %r' % (some,)
+            ks = list(range(mo, -1, -1))
+            for arg in (iter(ks), tuple(ks), (k for k in ks), reversed(range(mo + 1)), set(ks)):
+                got = dict(B.bettiNumbers(c, arg))
+                if got != {k: want[k] for k in ks}:
+                    return 'FAIL bettiNumbers(%s of %r) = %r' % (type(arg).__name__, ks, got)
         return 'ok'
 
     def o_snf(self, h):
@@ -607,8 +626,15 @@ class State:
             # a filtration is compared as the complex it shows: this oracle reads it at its last index only
             if isinstance(x, Filtration) and len(x.simplices()) != len(B.simplices(x)):
                 return 'ok'
-        le = all(s in sb and B.orderOf(b, s) == B.orderOf(a, s) and B.faces(a, s) == B.faces(b, s) for s in sa)
-        ge = all(s in sa and B.orderOf(a, s) == B.orderOf(b, s) and B.faces(a, s) == B.faces(b, s) for s in sb)
+        # the faces of s read off the bases (in a valid complex: the simplices one order down on points of s), so
+        # that the expectation does not come from the very look-up the comparison uses
+        def facets(c):
+            bs = {s: frozenset(B.basisOf(c, s)) for s in B.simplices(c)}
+            od = {s: B.orderOf(c, s) for s in B.simplices(c)}
+            return {s: frozenset(t for t in bs if od[t] == od[s] - 1 and bs[t] <= bs[s]) for s in bs}, od
+        fa, oa = facets(a); fb, ob = facets(b)
+        le = all(s in fb and ob[s] == oa[s] and fa[s] == fb[s] for s in sa)
+        ge = all(s in fa and oa[s] == ob[s] and fa[s] == fb[s] for s in sb)
         want = dict(le=le, lt=le and len(sa) < len(sb), ge=ge, gt=ge and len(sb) < len(sa),
                     eq=le and len(sa) == len(sb), ne=not (le and len(sa) == len(sb)))
         got = dict(le=a <= b, lt=a < b, ge=a >= b, gt=a > b, eq=a == b, ne=a != b)
@@ -649,7 +675,10 @@ class State:
 
     def o_vr(self, he, hres):
         e = self.ex.embs[he]; vr = self.C(hres); eps = self.ex.vr_eps
-        pts = list(e.complex().simplicesOfOrder(0))
+        under = self.ex.objs.get(self.ex.emb_of.get(he))
+        if under is not None and e.complex() is not under:
+            return 'FAIL the embedding does not refer to the complex it was made for'
+        pts = list((under if under is not None else e.complex()).simplicesOfOrder(0))
         if set(B.simplicesOfOrder(vr, 0)) != set(pts) or any(type(p) not in [type(q) for q in pts] for p in B.simplicesOfOrder(vr, 0)):
             return 'FAIL Vietoris-Rips points differ from the embedding points'
         close = lambda p, q: e.distance(e.positionOf(p), e.positionOf(q)) <= eps
@@ -786,6 +815,34 @@ class State:
                 return 'FAIL attributes of %r in the composition: %r' % (s, B.getAttributes(d, s))
         return 'ok'
 
+    def o_addfrom_fn_large(self, n):
+        """bulk add of a source with several hundred simplices under a renaming function: called at most once per simplex"""
+        n = int(n)
+        src = SimplicialComplex()
+        for i in range(n):
+            src.addSimplex(id=i, attr={'i': i})
+        for i in range(n):
+            src.addSimplex(fs=[i, (i + 1) % n], id=(i, 'e'))
+        for i in range(0, n - 2, 3):
+            src.addSimplex(fs=[i, i + 2], id=(i, 'd')); src.addSimplex(fs=[(i, 'e'), (i + 1, 'e'), (i, 'd')], id=(i, 't'))
+        calls = collections.Counter()
+        fresh = itertools.count()
+        def fn(s):
+            calls[s] += 1
+            return ('new', next(fresh))
+        dst = SimplicialComplex(); dst.addSimplex(id='own')
+        try:
+            dst.addSimplicesFrom(src, rename=fn)
+        except Exception as x:
+            return 'FAIL addSimplicesFrom of %d simplices under a renaming function raised %s: %s' % (len(src), type(x).__name__, x)
+        if any(v > 1 for v in calls.values()):
+            return 'FAIL the renaming function was called %d times for one simplex' % max(calls.values())
+        if len(dst) != len(src) + 1 or sorted(dst.numberOfSimplicesOfOrder()) != sorted([x + (1 if k == 0 else 0) for k, x in enumerate(src.numberOfSimplicesOfOrder())]):
+            return 'FAIL wrong number of simplices after the bulk add'
+        if dict(dst.bettiNumbers()) != {k: v + (1 if k == 0 else 0) for k, v in dict(src.bettiNumbers()).items()}:
+            return 'FAIL the bulk add is not an isomorphic copy (Betti numbers differ)'
+        return 'ok'
+
     # ---- C15 (names that print alike) -------------------------------------------------------------------
     def o_disjoint_twin(self, seed):
         import random
@@ -915,7 +972,24 @@ class State:
                 seen[i] = h
         return 'ok'
 
-    # ---- C17 -------------------------------------------------------------------------------------------
+    # ---- C17 / C08 ---------------------------------------------------------------------------------------
+    def o_jsonset(self, h):
+        """encoding never changes the complex, also when a value is not JSON data (a set: refused with TypeError)"""
+        d = copy.deepcopy(self.C(h))
+        ss = B.simplices(d)
+        if not ss:
+            return 'ok'
+        B.getAttributes(d, ss[0])['tags'] = {3, 1, 2}
+        B.getAttributes(d, ss[-1])['frozen'] = frozenset(['x'])
+        before = full_state(d); reprs = [repr(sorted(B.getAttributes(d, s).items(), key=repr)) for s in ss]
+        try:
+            sfile.as_json(d)
+        except TypeError:
+            pass
+        if full_state(d) != before or reprs != [repr(sorted(B.getAttributes(d, s).items(), key=repr)) for s in ss]:
+            return 'FAIL encoding to JSON changed the attributes of the complex'
+        return 'ok'
+
     def o_jsontext(self, h):
         c = self.C(h)
         txt = sfile.as_json(c)
@@ -1028,6 +1102,12 @@ class State:
                 return 'FAIL ring: a point without exactly two edges'
             if components(frozenset(frozenset(B.basisOf(c, s)) for s in new)) != 1:
                 return 'FAIL ring is not one cycle'
+        if kind in ('ksimplex', 'kvoid', 'kskel', 'ring'):
+            # "its faces will be anonymous": only the top simplex of k_simplex is given the requested attributes
+            topk = [s for s in new if B.orderOf(c, s) == k] if kind == 'ksimplex' else []
+            for s in new:
+                if s not in topk and B.getAttributes(c, s) != {}:
+                    return 'FAIL generated simplex %r below the top simplex carries attributes %r' % (s, B.getAttributes(c, s))
         if kind == 'ksimplex' and rest:
             top = [s for s in new if B.orderOf(c, s) == k]
             if rest[0] != '-' and top != [self.ex.name(rest[0])]:
@@ -1103,6 +1183,12 @@ class State:
                     return 'FAIL face %r born after %r' % (x, s)
         keys0 = list(inds)
         prev = None
+        try:
+            vis = [s for s in ss if births[s] <= cur]
+            if len(f) != len(vis) or f.numberOfSimplices() != len(vis) or f.simplices() != vis:
+                return 'FAIL the filtration shows %d simplices at its current index, len() says %d' % (len(vis), len(f))
+        except Exception as x:
+            return 'FAIL counting / listing the simplices at the current index raised %s' % type(x).__name__
         for i in inds:
             f.setIndex(i)
             want = [s for s in ss if births[s] <= i]
@@ -1123,6 +1209,10 @@ class State:
             if len(f) != len(want) or f.numberOfSimplices() != len(want):
                 f.setIndex(cur)
                 return 'FAIL at index %r the complex seen has %d simplices, len() says %d' % (i, len(want), len(f))
+            for j in inds:
+                if set(f.simplicesAddedAtIndex(j)) != {s for s in ss if births[s] == j}:
+                    f.setIndex(cur)
+                    return 'FAIL simplicesAddedAtIndex(%r) asked while at index %r' % (j, i)
             got = f.simplicesAddedAtIndex(i)
             if set(got) != {s for s in ss if births[s] == i} or [B.orderOf(f, s) for s in got] != sorted(B.orderOf(f, s) for s in got):
                 f.setIndex(cur)
@@ -1207,6 +1297,15 @@ class State:
                 if (n in f) != (n in s):
                     f.setIndex(cur)
                     return 'FAIL membership of %r at index %r' % (n, i)
+            allp = B.simplicesOfOrder(f, 0)[:6]
+            for r in (1, 2, 3):
+                for q in itertools.combinations(allp, r):
+                    # membership and order of points, asked in one call (the look-up of a simplex by its basis is not
+                    # among the queries C14 lists: it is inherited unscoped, like maxOrder)
+                    a, b = f.isBasis(list(q)), s.isBasis(list(q))
+                    if a != b:
+                        f.setIndex(cur)
+                        return 'FAIL isBasis(%r) at index %r: filtration %r, snapshot %r' % (list(q), i, a, b)
         f.setIndex(cur)
         if known:
             return 'ok KNOWN ' + ','.join(sorted(set(known)))
@@ -1247,6 +1346,9 @@ class State:
 
     def _emb(self, he):
         real = self.ex.embs[he]
+        under = self.ex.objs.get(self.ex.emb_of.get(he))
+        if under is not None and real.complex() is not under:
+            return 'FAIL complex() is not the complex the embedding was made for'
         for s, n in getattr(real, 'percount', {}).items():
             if n > 1:
                 return 'FAIL position of %r computed %d times since the positions were last cleared' % (s, n)
@@ -1264,6 +1366,16 @@ class State:
                 return 'FAIL `in` for %r' % (s,)
         if set(e.positionsOf().keys()) != set(pts):
             return 'FAIL positionsOf() does not cover exactly the points'
+        for s in pts:
+            if len(e.positionOf(s)) != e.dimension() or len(e[s]) != e.dimension():
+                return 'FAIL the position of %r has %d coordinates in an embedding of dimension %d' % (s, len(e.positionOf(s)), e.dimension())
+        hi = [s for s in c.simplices() if c.orderOf(s) > 0][:2]
+        for s in hi:
+            try:
+                got = e.positionsOf([s] + pts[:1])
+                return 'FAIL positionsOf(%r) returned %r for a simplex of order %d instead of raising ValueError' % ([s] + pts[:1], got, c.orderOf(s))
+            except ValueError:
+                pass
         for s in c.simplices():
             if c.orderOf(s) > 0:
                 for assign in (False, True):
